@@ -17,6 +17,8 @@ import AmrK.CellHCodec
 import AmrK.HypsModel
 import AmrK.HeaderRender
 import AmrK.TasteWFModel
+import AmrK.Names
+import AmrK.Extrema
 /-! `amrk-driver`: one JSON object per line in, one JSON object per line out.
     Executable definitions of the model only (no Mathlib behind any import). -/
 open Lean
@@ -262,6 +264,57 @@ def opWfPlt (files : Std.HashMap String Bytes) (j : Json) : Except String Json :
   return Json.mkObj [("wf", toJson wf), ("header_same", toJson (header == Header.render H)), ("good", toJson H.goodB),
     ("levels", toJson lvDiag)]
 
+/-! ### which fields a tool writes (colander / combine / chef) -/
+def strs (j : Json) : Except String (List String) := do (← j.getArr?).toList.mapM (·.getStr?)
+def optStrs (j : Json) (k : String) : Except String (Option (List String)) :=
+  match j.getObjVal? k with
+  | .ok .null => pure none
+  | .ok v => do return some (← strs v)
+  | .error _ => pure none
+def opNames (j : Json) : Except String Json := do
+  let tool ← (← j.getObjVal? "tool").getStr?
+  let n1 ← strs (← j.getObjVal? "names")
+  match tool with
+  | "colander" =>
+    let sel := Names.select n1 (← optStrs j "vars")
+    return Json.mkObj [("fields", toJson sel), ("indices", toJson (Names.indices n1 sel))]
+  | "combine" =>
+    let n2 ← strs (← j.getObjVal? "names2")
+    let v1 ← optStrs j "v1"
+    let v2 ← optStrs j "v2"
+    let s1 := Names.select n1 v1
+    let out := Names.combine n1 n2 v1 v2
+    return Json.mkObj [("fields", toJson out), ("i1", toJson (Names.indices n1 s1)),
+      ("i2", toJson (Names.indices n2 (out.drop s1.length)))]
+  | "chef" =>
+    let kept ← strs (← j.getObjVal? "kept")
+    let new ← strs (← j.getObjVal? "new")
+    let out := Names.chef n1 kept new
+    return Json.mkObj [("fields", toJson out), ("kept_indices", toJson (Names.indices n1 (kept.filter (n1.contains ·))))]
+  | _ => throw "unknown tool"
+
+/-! ### menu's min/max entries -/
+def vOfJson (j : Json) : Except String Extrema.V :=
+  match j with
+  | .str "nan" => pure .nan
+  | .str "inf" => pure .pinf
+  | .str "-inf" => pure .ninf
+  | _ => do return .fin (← ratOfJson j)
+def vToJson : Extrema.V → Json
+  | .nan => "nan"
+  | .pinf => "inf"
+  | .ninf => "-inf"
+  | .fin q => toJson [q.num, (q.den : Int)]
+def opExtrema (j : Json) : Except String Json := do
+  let lv ← (← j.getObjVal? "levels").getArr?
+  let levels ← lv.toList.mapM fun l => do (← l.getArr?).toList.mapM vOfJson
+  let finest := (j.getObjValAs? Bool "finest").toOption.getD false
+  let r (f : Extrema.V → Extrema.V → Extrema.V) : Json :=
+    match (if finest then Extrema.finest f levels else Extrema.overLevels f levels) with
+    | none => Json.null
+    | some v => vToJson v
+  return Json.mkObj [("min", r Extrema.vmin), ("max", r Extrema.vmax)]
+
 /-! ### mandoline column -/
 open Column in
 def cfgOfJson (j : Json) : Except String Cfg := do
@@ -410,6 +463,8 @@ partial def loop (h : IO.FS.Stream) (out : IO.FS.Stream) (files : Std.HashMap St
         | "render_cellh" => opRenderCellH j
         | "render_header" => opRenderHeader j
         | "wf_plt" => opWfPlt files j
+        | "names" => opNames j
+        | "extrema" => opExtrema j
         | "chunks" => opChunks j
         | "taste_plt" => opTastePlt files j
         | "column" => opColumn j
